@@ -20,6 +20,7 @@ Oracles:
   P  purity: pack() twice returns equal bytes and leaves the declared fields unchanged
 """
 import os
+import re
 import sys
 import threading
 
@@ -48,12 +49,33 @@ DUEL_MAX_POINTS = 160
 # ---------------------------------------------------------------------------------------
 # observation helpers (harness code: never traced, never pre-empted)
 # ---------------------------------------------------------------------------------------
+KNOBS = [0, 0]       # [the small value this run gives to every size bound of the library (0: leave them), how many it found]
+_KNOB_NAME = re.compile(r"(^|_)(MAX|MAXSIZE|LIMIT|CAPACITY|BOUND)(_|$)|CACHE_?(SIZE|LEN|LENGTH|ENTRIES)|POOL_?SIZE", re.I)
+
+
+def shrink_knobs(small):
+    """tuning knobs: a module-level integer of the library whose NAME says it bounds a cache or a pool (_MAX_..., ..._LIMIT,
+    ..._CACHE_SIZE) is set to 1 or 2, in the twin worlds and in the simulated world alike, so that eviction and "cache
+    full" paths - which a fresh process would reach only after hundreds of distinct inputs - run all the time. How much a
+    cache holds is not behaviour: every oracle compares worlds that run under the same bounds."""
+    n = 0
+    for name, mod in list(sys.modules.items()):
+        if name == "bisturi" or name.startswith("bisturi."):
+            for attr, val in list(vars(mod).items()):
+                if type(val) is int and val >= 8 and attr.upper() == attr and _KNOB_NAME.search(attr):
+                    setattr(mod, attr, small)
+                    n += 1
+    return n
+
+
 class Env:
     """one pristine world: a fresh bisturi import plus freshly defined declarations"""
 
     def __init__(self, tree, pdir, modname, source, write):
         import_fresh_bisturi(tree)
         project.purge(["c13_"])
+        if KNOBS[0]:
+            KNOBS[1] = shrink_knobs(KNOBS[0])
         self.Packet = sys.modules["bisturi.packet"].Packet
         self.PacketError = sys.modules["bisturi.packet"].PacketError
         self.mod = project.exec_module(pdir, modname, source if write else None)
@@ -717,7 +739,10 @@ class ThreadEngine(Engine):
 
     def scenario(self, tier, idx):
         # opcode granularity: half of the thorough runs, and one duel sweep in four of the quick tier
-        return {"mode": "duel" if idx % 4 == 3 else "random", "opcode": bool((tier == "thorough" and idx % 2 == 1) or idx % 16 == 15)}
+        sc = {"mode": "duel" if idx % 4 == 3 else "random", "opcode": bool((tier == "thorough" and idx % 2 == 1) or idx % 16 == 15)}
+        if (idx // 4) % 4 == 1:
+            sc["knobs"] = 1 + (idx // 16) % 2        # a quarter of the runs of either mode: size bounds of the library shrunk to 1 or 2
+        return sc
 
     # ---------------------------------------------------------------------------------
     def _world_draws(self, ch, st):
@@ -757,6 +782,7 @@ class ThreadEngine(Engine):
         pdir = project.fresh_dir(os.path.join(self.wdir, "p13"))
         RAWS_SEEN.clear()
         VALUES_SEEN.clear()
+        KNOBS[0], KNOBS[1] = scenario.get("knobs", 0), 0
         BIG[0] = ch.chance("big-values", 1, 16)
         if BIG[0]:
             st["probe:big-values"] += 1
@@ -845,6 +871,10 @@ class ThreadEngine(Engine):
             v = world.violation
             out.violation = {"oracle": v[0], "actor": v[1], "detail": v[2]}
             out.events.append("VIOLATION %s: %s" % (v[0], v[2]))
+        if KNOBS[0]:
+            out.stats["probe:run-with-shrunk-size-bounds"] += 1
+            if KNOBS[1]:
+                out.stats["probe:size-bound-found-and-shrunk"] += 1
         nparse = sum(1 for p in packets for o in p["ops"] if o[0] == "PARSE")
         npack = sum(1 for p in packets for o in p["ops"][:-2] if o[0] in ("PACK", "PACK2"))
         same_class = any(len([q for q in packets if q["root"] == p["root"]]) > 1 for p in packets)
